@@ -321,7 +321,7 @@ func TestC12(t *testing.T) {
 	nonDamp := []string{"cease-rx", "close", "rst", "readd", "plug-cease"}
 	deltas := []int64{0, 100000, 239000, 299000, 299990, 300010, 301000, 1000000}
 	codes := []uint8{1, 2, 3, 4, 5, 7, 8, 0, 255}
-	n := c.N(6000, 150000)
+	n := c.N(6000, 400000)
 	maxLen := c.N(4, 6)
 	for i := 0; i < n; i++ {
 		if !c.Mine("hist", i) {
